@@ -243,6 +243,9 @@ PROPS["C03"] = {
         {"pkg": "verifx/c03", "run": "^TestC03TxAtomicity$",
          "quick": {"checks": 80, "shards": 12, "timeout": 700},
          "thorough": {"checks": 1500, "shards": 16, "timeout": 2400}},
+        {"pkg": "verifx/c03", "run": "^TestC03DroppedProduction$",
+         "quick": {"checks": 60, "shards": 6, "timeout": 700},
+         "thorough": {"checks": 1200, "shards": 12, "timeout": 2400}},
         {"pkg": "verifx/tree", "run": "^TestC03InvalidBlocks$",
          "quick": {"checks": 100, "shards": 10, "timeout": 700},
          "thorough": {"checks": 2000, "shards": 16, "timeout": 2400}},
@@ -513,3 +516,7 @@ _amend("C15", "level_text", "name create/update and transfers, executed one tran
 
 _amend("C18", "level_text", "(a) sequences of 1-6 messages",
        "(b2) the status exchange of EVERY accepted protocol version (2.0.0, 0.3.3, 0.3.2, 0.3.1), with the handshaker the node's real version manager hands out: a status differing in one field (genesis hash by one bit / another chain's genesis / none, peer id, chain id fields) must be refused; (c2) block-produced notices through the real notice handler and the real sync manager: 0-3 notices that announce other content (own key, oversized, other header) under the identifier of a genuine block, then the producer's notice of the genuine block, which must reach the chain service; (a) sequences of 1-6 messages")
+
+_amend("C03", "level_text", "and valid blocks are still accepted afterwards.",
+       "and valid blocks are still accepted afterwards; (c) a DPoS node that, before some blocks of a canonical chain made by a reference node, builds a block of its own from the transactions of the coming blocks and loses it (refused as stale after the network's block, or given up): it must accept every block of the canonical chain, and after each block its in-memory voting power ranking and active system parameters must be those loaded from the state of its best block.")
+_amend("C03", "technique", "on a real node", "on a real node; differential of a producing-and-losing node against the canonical chain of a reference node")
